@@ -3,5 +3,6 @@ CONSTANTS
   MaxOps = 3
   MaxLen = 4
   Emit = TRUE
+  Kinds = {0, 1, 2, 3, 4, 5}
 INVARIANTS Inv EmitDone
 CHECK_DEADLOCK FALSE
